@@ -1139,3 +1139,171 @@ Proof.
                   H1 H2 H3 H4 H5 H6 H7 H8 H9 H10 H11 H12 H13 H14 H15 H16 H17 H18 H19 H20 H21 H22 H23)).
 Qed.
 Print Assumptions exact_reproduces_with_walk.
+
+(* ================================================================================================
+   RE-EXPANSION: the table that is expanded has been expanded before (the installed table of a product that is built
+   and packaged again; eups expandtable -i run twice).  Model/ExpandRe.v: the repaired code
+   (proposed_fixes/C17-reexpansion-anywhere) drops the lines the earlier expansion added while it reads the table -
+   [unexpand_text] - and processes the rest as the table of a product that was never expanded:
+        reexpand_text = expand_text after unexpand_text          (a definition; the driver runs reexpand_text)
+   [own_lines ls] the lines of ls that are the table's own: not  if (type == exact) {  with the old pins up to
+   } else { , not  if (type != exact) { , not the brace that closes the setups they guard.
+   The pinned tree recognised an old exact block only at the head of a block of other lines, left its closing brace
+   behind, and otherwise wrapped the OLD pins in a block on type != exact - which the table reader, not nesting
+   conditions, executes in non-exact mode (corpus/C17/reexpansion-*.json).
+   ================================================================================================ *)
+From Eupsv Require Import Model.ExpandRe Proofs.ExpandRe.
+
+(* the expansion depends on the text through its lines only *)
+Lemma expand_text_lines_only tf jf sf cf w e top plist force rd t1 t2 :
+  lines_of t1 = lines_of t2 ->
+  expand_text_gen tf jf sf cf w e top plist force rd t1 = expand_text_gen tf jf sf cf w e top plist force rd t2.
+Proof. intro H. unfold expand_text_gen, expand_text_lines_gen, classify_text. rewrite H. reflexivity. Qed.
+
+(* a table without blocks on the expansion type - every table that was never expanded - is expanded as before: the
+   extension is conservative *)
+Theorem first_expansion_unchanged tf jf sf cf w e top plist force rd text :
+  forallb (fun l => negb (opens_type_block l)) (lines_of text) = true ->
+  reexpand_text_gen tf jf sf cf w e top plist force rd text = expand_text_gen tf jf sf cf w e top plist force rd text.
+Proof.
+  intro H. unfold reexpand_text_gen. apply expand_text_lines_only.
+  rewrite lines_of_unexpand_text. now apply unexpand_plain.
+Qed.
+Print Assumptions first_expansion_unchanged.
+
+(* WHAT IS DROPPED of a block the earlier expansion wrote, wherever it stands (pre: lines without such blocks):
+   the if line, the old pins, the else line and the closing brace - nothing else; the guarded setups (with their
+   comments and blank lines) stay, and so does everything behind the block *)
+Theorem own_lines_of_an_exact_block pre ifl pins elsel body closel post :
+  forallb (fun l => negb (opens_type_block l)) pre = true ->
+  is_line p_if_exact ifl -> Forall pin_like pins -> is_line p_else elsel ->
+  Forall guarded_like body -> is_line p_close closel ->
+  own_lines (pre ++ ifl :: pins ++ elsel :: body ++ closel :: post) = pre ++ body ++ own_lines post.
+Proof. apply unexpand_exact_block. Qed.
+Print Assumptions own_lines_of_an_exact_block.
+
+Theorem own_lines_of_a_guarded_block pre ifl body closel post :
+  forallb (fun l => negb (opens_type_block l)) pre = true ->
+  is_line p_if_not_exact ifl -> seq_full p_if_exact (before_hash ifl) = false ->
+  Forall guarded_like body -> is_line p_close closel ->
+  own_lines (pre ++ ifl :: body ++ closel :: post) = pre ++ body ++ own_lines post.
+Proof. apply unexpand_not_exact_block. Qed.
+Print Assumptions own_lines_of_a_guarded_block.
+
+(* only lines of the table survive, in the order of the table (no line is invented) *)
+Theorem own_lines_are_lines_of_the_table ls l : In l (own_lines ls) -> In l ls.
+Proof. apply unexpand_in. Qed.
+Print Assumptions own_lines_are_lines_of_the_table.
+
+(* CLAUSE "passes lines other than setup commands through unchanged", for a table that was expanded before: in both
+   readings of the written text the lines that are neither blank, nor comments, nor setup commands are those of the
+   table's own lines, in order, character for character (indentation, trailing blanks and a trailing comment aside) *)
+Theorem reexpansion_passes_other_lines jf sf cf w e top plist force rd text otxt :
+  reexpand_text_gen true jf sf cf w e top plist force rd text = Inside otxt ->
+  other_lines (exact_text_view otxt) = other_lines (own_lines (lines_of text)) /\
+  other_lines (inexact_text_view otxt) = other_lines (own_lines (lines_of text)).
+Proof.
+  unfold reexpand_text_gen, own_lines. intro H.
+  destruct (passes_other_lines_text _ _ _ _ _ _ _ _ _ _ _ H) as [A B].
+  rewrite lines_of_unexpand_text in A, B. split; assumption.
+Qed.
+Print Assumptions reexpansion_passes_other_lines.
+
+(* CLAUSE "never pins a version that was not set up", for a table that was expanded before: whatever the old exact
+   block pinned, every line of the exact block of the written text pins a version the environment records at
+   expansion time (or the productList gives) *)
+Theorem reexpansion_pins_only_setup_versions tf jf sf cf w e top plist force rd text otxt p :
+  reexpand_text_gen tf jf sf cf w e top plist force rd text = Inside otxt ->
+  In p (exact_block_of_text otxt) ->
+  exists o n v, p = pin_text o n v /\ (recorded e n v \/ alookup n plist = Some v).
+Proof. unfold reexpand_text_gen. apply pins_only_setup_versions_text. Qed.
+Print Assumptions reexpansion_pins_only_setup_versions.
+
+(* CLAUSE "keeps the original constraints for inexact mode", for a table that was expanded before: the setup lines of
+   the non-exact reading are the rewritten setup lines of the table's own lines - the old pins are not among them *)
+Theorem reexpansion_keeps_inexact_constraints jf sf cf w e top plist force rd text otxt :
+  reexpand_text_gen true jf sf cf w e top plist force rd text = Inside otxt ->
+  exists ls rs,
+    classify_lines true (own_lines (lines_of text)) = Inside ls /\
+    setup_texts (inexact_text_view otxt) = map render_rline rs ++ eups_in ls /\
+    Forall2 (carries w e plist) (setups_in ls) rs.
+Proof.
+  unfold reexpand_text_gen, own_lines. intro H.
+  destruct (keeps_inexact_constraints_text _ _ _ _ _ _ _ _ _ _ _ H) as [ls [rs [C [S F]]]].
+  exists ls, rs. unfold classify_text in C. rewrite lines_of_unexpand_text in C. auto.
+Qed.
+Print Assumptions reexpansion_keeps_inexact_constraints.
+
+(* Every reader of the set-up state (findSetupVersion, getSetupVersion, findSetupProduct, getDependentProducts with
+   setup=True, subSetup) goes through find_setup_product: the product it reports has the version the SETUP_ variable
+   records - the world of the model has no tags, so this holds whatever tags exist and wherever they sit, in
+   particular when the recorded version is NAMED like a tag that is assigned to another version (a build called
+   stable; corpus/C17/version-named-like-a-tag.json).  With pins_only_setup_versions: that version is what is pinned. *)
+Theorem setup_readers_report_the_recorded_version w e n p :
+  find_setup_product w e n = Some p -> p_name p = n /\ recorded e n (p_version p).
+Proof. apply find_setup_product_recorded. Qed.
+Print Assumptions setup_readers_report_the_recorded_version.
+
+(* ---- examples (world, environment and dependency lists of expansion_example) ---- *)
+Definition rtext : str :=
+  lit "# top table" ++ nlc ++ lit "setupRequired(b)" ++ nlc ++ lit "setupOptional(zz)" ++ nlc ++
+  lit "envSet(FOO, bar)" ++ nlc ++ lit "if (flavor == Linux64) {" ++ nlc ++ lit "   envSet(X, mine)" ++ nlc ++
+  lit "} else {" ++ nlc ++ lit "   envSet(X, other)" ++ nlc ++ lit "}" ++ nlc.
+Definition verdict_text (v : verdict str) : str := match v with Inside t => t | _ => [] end.
+Definition rtext1 : str := verdict_text (expand_text xworld xenv (lit "top") [] false xraw rtext).
+
+(* reexpansion_is_idempotent_on_pins, on an instance (the general statement needs the rendering of a rewritten
+   line to classify back to that line; pin_line_reads_back is that statement for the pins): a comment in front of the
+   exact block, other commands and a flavor conditional behind the setup lines; expanding the expanded table gives
+   the same text again - same pins, same lines *)
+Example reexpansion_is_idempotent_example :
+  shown_text (Inside rtext1)
+  = Some "# top table
+if (type == exact) {
+   setupRequired(b               -j 1.0)
+   setupRequired(a               -j 2.0)
+} else {
+   setupRequired(b 1.0 [>= 1.0])
+   setupOptional(zz)
+}
+envSet(FOO, bar)
+if (flavor == Linux64) {
+envSet(X, mine)
+} else {
+envSet(X, other)
+}
+"%string /\
+  reexpand_text xworld xenv (lit "top") [] false xraw rtext1 = Inside rtext1 /\
+  exact_block_of_text rtext1 = exact_block_of_text (verdict_text (reexpand_text xworld xenv (lit "top") [] false xraw rtext1)).
+Proof. repeat split; vm_compute; reflexivity. Qed.
+
+(* an installed table whose exact block pins versions of an earlier build (b 0.9, c 3.0 - neither is set up now),
+   with a block on type != exact in front and in other spellings: the old pins are gone, what is set up is pinned *)
+Definition stale_text : str :=
+  lit "if(type!=exact){" ++ nlc ++ lit "   setupRequired(c)" ++ nlc ++ lit "}" ++ nlc ++ lit "envSet(FOO, bar)" ++ nlc ++
+  lit "if (type == exact) {   # written by expandtable" ++ nlc ++ lit "   setupRequired(b               -j 0.9)" ++ nlc ++
+  lit "   setupRequired(c               -j 3.0)" ++ nlc ++ lit "}else{" ++ nlc ++ lit "   setupRequired(b [>= 0.5])" ++ nlc ++
+  lit "}" ++ nlc ++ lit "envSet(BAR, foo)" ++ nlc.
+Example reexpansion_drops_stale_pins :
+  shown_text (reexpand_text xworld xenv (lit "top") [] false xraw stale_text)
+  = Some "if (type != exact) {
+   setupRequired(c 1.0 [>= 1.0])
+}
+envSet(FOO, bar)
+if (type == exact) {
+   setupRequired(c               -j 1.0)
+   setupRequired(a               -j 2.0)
+   setupRequired(b               -j 1.0)
+} else {
+   setupRequired(b 1.0 [>= 0.5])
+}
+envSet(BAR, foo)
+"%string /\
+  map String.string_of_list_ascii (own_lines (lines_of stale_text))
+  = ["   setupRequired(c)"; "envSet(FOO, bar)"; "   setupRequired(b [>= 0.5])"; "envSet(BAR, foo)"]%string.
+Proof. split; vm_compute; reflexivity. Qed.
+
+(* the text model of the pinned tree keeps its verdict for such a table *)
+Example reexpansion_outside_pinned :
+  expand_text_pinned xworld xenv (lit "top") [] false xraw rtext1 = Outside XExactBlock.
+Proof. vm_compute. reflexivity. Qed.
